@@ -1564,6 +1564,10 @@ _U = 'utils/courier_utils.py'
 _W = 'chainables/courier_worker.py'
 _O = 'chainables/orchestrate.py'
 VARIANTS = [
+    OK('unused-workers-through-a-local', 'chainables/orchestrate.py',
+       "        worker_pool.release_all(unused_workers)", "        spare = unused_workers\n        worker_pool.release_all(spare)"),
+    OK('dead-marker-address-through-a-local', 'utils/courier_utils.py',
+       "    _worker_registry.unregister(self.address)", "    address = self.address\n    _worker_registry.unregister(address)"),
     OK('refresh-newest-through-a-local', 'utils/courier_utils.py',
        "        self.data[address] = max(last_time, time_)", "        newest = max(last_time, time_)\n        self.data[address] = newest"),
     OK('call-and-wait-releases-in-a-base-exception-handler', 'chainables/courier_worker.py',
